@@ -10,8 +10,8 @@ CONSTANTS
   AddedIdx = {1,4,7}
   EmitMod = 1
   EmitRem = 0
-  FixEnvPath = FALSE
-  FixRelProject = FALSE
+  FixEnvPath = TRUE
+  FixRelProject = TRUE
 INVARIANT InvRoundTrip
 INVARIANT InvSysPath
 INVARIANT InvImport
